@@ -220,7 +220,12 @@ def extract(repo=None, overflow_checks="on", use_cache=True):
     """Return (Facts, info).  Re-extracts whenever the tree hash changed."""
     repo = repo or REPO
     t0 = time.time()
-    key = "%s-%s" % (tree_hash(repo), overflow_checks)
+    # (the extractor's own source is part of the key: a changed driver re-extracts)
+    try:
+        drv = hashlib.sha1(open(os.path.join(VERIF, "driver", "src", "main.rs"), "rb").read()).hexdigest()[:8]
+    except OSError:
+        drv = "nodrv"
+    key = "%s-%s-%s" % (tree_hash(repo), overflow_checks, drv)
     path = os.path.join(cache_dir(), "facts-%s.json" % key)
     cached = use_cache and os.path.exists(path) and os.path.getsize(path) > 0
     if not cached:
